@@ -38,9 +38,10 @@ REQUIRED = ['connect_outcome', 'one_connect_event', 'one_disconnect_event',
 SHARD_TIMEOUT = {'quick': 500, 'thorough': 3400}
 
 OPENS = ['ok', 'refuse', 'status401', 'status500', 'garbage', 'empty',
-         'nonopen']
+         'nonopen', 'ws-status403']
 TRANSPORTS = ['polling', 'websocket', 'upgrade']
-PROBES = ['ok', 'wrong', 'silent', 'close', 'refuse', 'upgrade-write-fails']
+PROBES = ['ok', 'wrong', 'silent', 'close', 'refuse', 'upgrade-write-fails',
+          'status403']
 ENDERS = ['server-close', 'silence', 'drop', 'post-fail', 'client-main',
           'client-in-message', 'client-in-connect', 'client-in-disconnect',
           'client-abort', 'write-dead-then-client', 'client-during-post',
@@ -58,6 +59,11 @@ def script_for(openb, transport, probe):
         sc['open'] = ('status', 500, '<html>oops</html>')
     elif openb in ('refuse', 'garbage', 'empty', 'nonopen'):
         sc['open'] = openb
+    if openb == 'ws-status403':
+        # the WebSocket handshake is answered with an HTTP 403 (on polling
+        # the open request is answered 403 as well)
+        sc['ws'] = 'status403'
+        sc['open'] = ('status', 403, 'forbidden')
     if transport == 'websocket':
         if openb == 'refuse':
             sc['ws'] = 'refuse'
@@ -68,6 +74,8 @@ def script_for(openb, transport, probe):
     if transport == 'upgrade':
         if probe == 'refuse':
             sc['ws'] = 'refuse'
+        elif probe == 'status403':
+            sc['ws'] = 'status403'
         else:
             sc['probe'] = probe
     return sc
